@@ -43,6 +43,11 @@ def runs(ctx):
     # the coarse ones set the time step -> the face-wise limiter of the step correction is active on the growth side
     go('AlZr/euler/loaded-bimodal/vratio', kwnruns.build_loaded_binary(ctx.rng, vratio=ctx.rng.choice([0.9, 0.9688, 1.2])), [600.0, 600.0], 'euler')
     go('NiCrAl/euler/small-grid', kwnruns.build_ternary(bins=20, minBins=10, maxBins=30), [4.0, 6.0], 'euler', 250)
+    # a minimum radius of the constraints ABOVE the precipitate's Rmin (both default to 3e-10 m): whole classes lie between the two
+    # thresholds, the nuclei pass through them, and what is counted in the rows must be what is kept in the distribution
+    mr = kwnruns.build_binary(x0=x0, T=T, bins=150, minBins=100, maxBins=200)
+    mr.setConstraints(minRadius=ctx.rng.uniform(4.0e-10, 4.6e-10))
+    go('AlZr/euler/minRadius-above-Rmin', mr, [3600.0 * 5], 'euler', 160 if not ctx.thorough else 1500)
     if ctx.thorough:
         go('AlZr/euler/default-grid', kwnruns.build_binary(x0=x0, T=T), [3600 * 50.0], 'euler')
         go('AlZr/euler/fixed-grid', kwnruns.build_binary(x0=x0, T=T, adaptive=False), [3600 * 20.0], 'euler')
@@ -220,9 +225,9 @@ def corr(ctx, oracle_only=False):
     # the COMPOSED step (KWNFull.eulerStep): transport, correction, truncation, extension / re-mesh and the recorded statistics of every
     # accepted step of real runs must be those of the model given the same entry state and backend answers
     if True:      # in the oracle-only pass (search, replay) the scenarios run with their direct oracles, without the model
-        kwnfull.refine_scenarios(ctx, res, PROP, [('alzr-loaded', ctx.n(80, 170)), ('alzr-small-grid', ctx.n(400, 1500)), ('alzr-loaded@rk4', ctx.n(50, 170)), ('nicral@2solves', ctx.n(40, 150)), ('alzr-small-grid@record', ctx.n(250, 800)), ('alzr-loaded-dilute', ctx.n(150, 500)), ('alzr-preloaded', ctx.n(25, 80)), ('alzr-fixed-grid', ctx.n(60, 250)), ('alzr-top-loaded@rk4', ctx.n(40, 150))] +
+        kwnfull.refine_scenarios(ctx, res, PROP, [('alzr-loaded', ctx.n(80, 170)), ('alzr-small-grid', ctx.n(400, 1500)), ('alzr-loaded@rk4', ctx.n(50, 170)), ('nicral@2solves', ctx.n(40, 150)), ('alzr-small-grid@record', ctx.n(250, 800)), ('alzr-loaded-dilute', ctx.n(150, 500)), ('alzr-preloaded', ctx.n(25, 80)), ('alzr-fixed-grid', ctx.n(60, 250)), ('alzr-minradius', ctx.n(60, 300)), ('alzr-top-loaded@rk4', ctx.n(40, 150))] +
                                  ([('almgsi-2phase-loaded', 200), ('nicral', 300), ('alzr-small-grid@2solves', 200)] if ctx.thorough else []),
-                                 oracles=('continuity', 'volume', 'recorded', 'grid', 'setuprow', 'budget', 'topflow'), driver=not oracle_only)
+                                 oracles=('continuity', 'volume', 'recorded', 'grid', 'setuprow', 'budget', 'topflow', 'stored'), driver=not oracle_only)
     vlib.finish_guard(res)
     return res
 
